@@ -306,14 +306,20 @@ fn check_alias_value(rep: &mut Reporter, text: &str, v: &Alias, origin: &str) {
     let (t, v2) = (text.to_string(), v.clone());
     let r = guarded(move || {
         let mut bad = vec![];
+        // The canonical text of an alias is whatever it prints; a parser that normalises its
+        // input is allowed by the statement, so the input text `t` is not compared.
+        let _ = &t;
         let s = v2.to_string();
-        if s != t || v2.as_str() != t || String::from(v2.clone()) != t {
+        if v2.as_str() != s || String::from(v2.clone()) != s {
             bad.push("print-not-canonical");
         }
         if Alias::from_str(&s).ok().as_ref() != Some(&v2) || Alias::try_from(s.clone()).ok().as_ref() != Some(&v2) {
             bad.push("from_str");
         }
-        if serde_json::to_string(&v2).ok() != Some(quoted(&t)) || serde_json::from_str::<Alias>(&quoted(&s)).ok().as_ref() != Some(&v2) {
+        if Alias::from_str(&s).map(|x| x.to_string()).ok().as_ref() != Some(&s) {
+            bad.push("print-not-stable");
+        }
+        if serde_json::to_string(&v2).ok() != Some(quoted(&s)) || serde_json::from_str::<Alias>(&quoted(&s)).ok().as_ref() != Some(&v2) {
             bad.push("serde");
         }
         if Alias::new(&s) != v2 {
@@ -332,14 +338,18 @@ fn check_agent_value(rep: &mut Reporter, text: &str, v: &UserAgent, origin: &str
     let (t, v2) = (text.to_string(), v.clone());
     let r = guarded(move || {
         let mut bad = vec![];
+        let _ = &t; // see check_alias_value
         let s = v2.to_string();
-        if s != t || v2.as_str() != t || v2.as_ref() != t {
+        if v2.as_str() != s || v2.as_ref() != s {
             bad.push("print-not-canonical");
         }
         if UserAgent::from_str(&s).ok().as_ref() != Some(&v2) {
             bad.push("from_str");
         }
-        if serde_json::to_string(&v2).ok() != Some(quoted(&t)) || serde_json::from_str::<UserAgent>(&quoted(&s)).ok().as_ref() != Some(&v2) {
+        if UserAgent::from_str(&s).map(|x| x.to_string()).ok().as_ref() != Some(&s) {
+            bad.push("print-not-stable");
+        }
+        if serde_json::to_string(&v2).ok() != Some(quoted(&s)) || serde_json::from_str::<UserAgent>(&quoted(&s)).ok().as_ref() != Some(&v2) {
             bad.push("serde");
         }
         bad
@@ -692,7 +702,7 @@ pub fn run(args: &Args) {
         rep.finish();
         return;
     }
-    let n = args.budget(1_600_000, 40_000_000);
+    let n = args.budget(1_600_000, 16_000_000);
     for k in 0..n {
         let mut rng = Rng::new(args.case_seed(k));
         match k % 8 {
